@@ -25,6 +25,8 @@ def run(ctx):
             c['inputs'][0]['fail_at'] = o; c['inputs'][0]['interrupts'] = rnd.choice([0, 0, 1, 3])
             # whatever the kind of the error: only Interrupted is retried, every other kind is a failed read
             c['inputs'][0]['fail_kind'] = rnd.choice(['other', 'other', 'wouldblock', 'timedout', 'brokenpipe', 'unexpectedeof', 'connectionreset', 'invaliddata'])
+            # half of the failures are reported once only: the reads after it see the end of the input (the error must not be forgotten)
+            if rnd.random() < 0.5: c['inputs'][0]['fail_once'] = True
             c['inputs'][0]['chunking'] = [rnd.randint(1, 7) for _ in range(40)]
             cases.append(c); meta[c['id']] = ('read', cfg, data, o)
     # write failures inside the last record admitted by --take (the limiter must not drop the error)
@@ -123,6 +125,7 @@ def replay(ctx, r):
     elif r['fault'] == 'read':
         c['inputs'][0]['fail_at'] = r['offset']
         if r.get('fail_kind'): c['inputs'][0]['fail_kind'] = r['fail_kind']
+        c['inputs'][0]['fail_once'] = True      # the stricter of the two deliveries
     else: c['out_room'] = r['offset']
     a = lib.run_harness([c])['r']
     return {'observed': {'result': a['result'], 'stdout': a['stdout'].decode('utf8', 'replace')[:300]}, 'expected': r.get('expected'), 'fails': a['result'] != 'err:io'}
